@@ -1,10 +1,139 @@
 (* Property C04 -- statements only.  Each theorem is closed by [exact] of a lemma proved in
-   the C04/ files; Print Assumptions is evaluated by ./check on every run. *)
+   the C04/ files; Print Assumptions is evaluated by ./check on every run.
+
+   The theorems are about the SPECIFICATION of simplify (C04/Model.v).  The C algorithm
+   (c/tskit/tables.c, the simplifier functions) is tied to [simplify_spec] by the per-run correspondence
+   only (label: partial).  The full refinement statement that is NOT proved:
+     simplify_alg_refines_spec_partial :
+       forall t smp o, valid t -> simplifier_run (model of the C data structures) t smp o
+                                  = simplify_spec t smp o.
+   Per position, a forest is a parent map [par]; it is acyclic because a measure [depth]
+   decreases strictly towards the root (tskit: time[child] < time[parent]), [fuel] exceeds
+   every depth (so no walk of the executable definitions runs out of fuel), and [nodes]
+   lists every node that has a parent, once.  Non-vacuity: C04/Examples.v. *)
 From Coq Require Import List ZArith Bool.
-From TskVerif Require Import Base.Common C04.Model C04.ReduceProofs.
+From TskVerif Require Import Base.Common C04.Model C04.ForestProofs C04.ReduceProofs
+  C04.IdemProofs C04.GenoProofs C04.SpecProofs C04.Examples.
 Import ListNotations.
 
+(* (a) every chosen sample is retained *)
 Theorem reduce_keeps_samples :
   forall par nodes smp unary_ok keep_roots fuel s,
     In s smp -> kept par nodes smp unary_ok keep_roots fuel s = true.
 Proof. exact reduce_keeps_samples_lemma. Qed.
+
+(* (b) among retained nodes, ancestry in the reduced forest is exactly the original
+   ancestry; and only retained nodes take part in the reduced forest *)
+Theorem reduce_ancestry_restriction :
+  forall par nodes smp unary_ok keep_roots fuel (depth : nat -> nat),
+    (forall u v, par u = Some v -> (depth v < depth u)%nat) ->
+    (forall u, (depth u < fuel)%nat) ->
+    forall a b,
+      kept par nodes smp unary_ok keep_roots fuel a = true ->
+      kept par nodes smp unary_ok keep_roots fuel b = true ->
+      (anc (rpar par nodes smp unary_ok keep_roots fuel) a b <-> anc par a b).
+Proof. exact reduce_ancestry_restriction_lemma. Qed.
+
+Theorem reduce_only_kept_nodes :
+  forall par nodes smp unary_ok keep_roots fuel a b,
+    anc (rpar par nodes smp unary_ok keep_roots fuel) a b ->
+    kept par nodes smp unary_ok keep_roots fuel a = true /\
+    kept par nodes smp unary_ok keep_roots fuel b = true.
+Proof. exact reduce_only_kept. Qed.
+
+(* (c) the MRCA of any two chosen samples is the same node before and after (both
+   undefined, or both the same input node; the node map then renames it) *)
+Theorem reduce_mrca_preserved :
+  forall par nodes smp unary_ok keep_roots fuel (depth : nat -> nat),
+    (forall u v, par u = Some v -> (depth v < depth u)%nat) ->
+    (forall u, (depth u < fuel)%nat) ->
+    (forall u v, par u = Some v -> In u nodes) ->
+    NoDup nodes ->
+    forall a b, In a smp -> In b smp ->
+      mrca (rpar par nodes smp unary_ok keep_roots fuel) fuel a b = mrca par fuel a b.
+Proof. exact reduce_mrca_preserved_lemma. Qed.
+
+(* [mrca] is the most recent common ancestor: common, and below every common ancestor;
+   [None] exactly when there is no common ancestor *)
+Theorem mrca_is_most_recent_common_ancestor :
+  forall par fuel (depth : nat -> nat),
+    (forall u v, par u = Some v -> (depth v < depth u)%nat) ->
+    (forall u, (depth u < fuel)%nat) ->
+    forall a b,
+      (forall m, mrca par fuel a b = Some m ->
+         aos par m a /\ aos par m b /\ forall c, aos par c a -> aos par c b -> aos par c m) /\
+      (mrca par fuel a b = None -> forall c, ~ (aos par c a /\ aos par c b)).
+Proof. exact mrca_correct. Qed.
+
+(* (d) reducing the reduced forest again (same samples, same options: keep_unary,
+   keep_unary_in_individuals, keep_input_roots in any combination) changes nothing *)
+Theorem reduce_idempotent :
+  forall par nodes smp unary_ok keep_roots fuel (depth : nat -> nat),
+    (forall u v, par u = Some v -> (depth v < depth u)%nat) ->
+    (forall u, (depth u < fuel)%nat) ->
+    (forall u v, par u = Some v -> In u nodes) ->
+    NoDup nodes ->
+    forall u,
+      kept (rpar par nodes smp unary_ok keep_roots fuel) nodes smp unary_ok keep_roots fuel u
+      = kept par nodes smp unary_ok keep_roots fuel u /\
+      rpar (rpar par nodes smp unary_ok keep_roots fuel) nodes smp unary_ok keep_roots fuel u
+      = rpar par nodes smp unary_ok keep_roots fuel u.
+Proof. exact reduce_idempotent_lemma. Qed.
+
+(* (e) every chosen sample has the same allele after the mutation remapping (alleles of
+   any type A; decoding = last mutation in table order on the path to the root) *)
+Theorem reduce_genotypes_preserved :
+  forall par nodes smp unary_ok keep_roots fuel (depth : nat -> nat),
+    (forall u v, par u = Some v -> (depth v < depth u)%nat) ->
+    (forall u, (depth u < fuel)%nat) ->
+    (forall u v, par u = Some v -> In u nodes) ->
+    NoDup nodes ->
+    forall (A : Type) (anc0 : A) (muts : list (nat * A)) s,
+      In s smp ->
+      allele (rpar par nodes smp unary_ok keep_roots fuel) fuel anc0
+             (remap_muts par nodes smp unary_ok keep_roots fuel muts) s
+      = allele par fuel anc0 muts s.
+Proof. exact reduce_genotypes_preserved_lemma. Qed.
+
+(* a remapped mutation sits on a retained node at or below its original node *)
+Theorem mutation_target_below :
+  forall par nodes smp unary_ok keep_roots fuel (depth : nat -> nat),
+    (forall u v, par u = Some v -> (depth v < depth u)%nat) ->
+    (forall u, (depth u < fuel)%nat) ->
+    (forall u v, par u = Some v -> In u nodes) ->
+    NoDup nodes ->
+    forall u v, mut_target par nodes smp unary_ok keep_roots fuel u = Some v ->
+      kept par nodes smp unary_ok keep_roots fuel v = true /\ aos par u v.
+Proof. exact mut_target_below. Qed.
+
+(* samples[k] becomes node k when nodes are filtered; identity map when they are not *)
+Theorem spec_sample_ids :
+  forall t smp o k s,
+    o_fn o = true -> NoDup smp -> nth_error smp k = Some s -> (s < length (t_nodes t))%nat ->
+    nth s (r_node_map (simplify_spec t smp o)) (-1)%Z = Z.of_nat k.
+Proof. exact spec_sample_ids_lemma. Qed.
+
+Theorem spec_no_filter_identity :
+  forall t smp o u,
+    o_fn o = false -> (u < length (t_nodes t))%nat ->
+    nth u (r_node_map (simplify_spec t smp o)) (-1)%Z = Z.of_nat u.
+Proof. exact spec_no_filter_identity_lemma. Qed.
+
+(* (f) F12: with reduce_to_site_topology and filter_sites both on, simplify is NOT
+   idempotent (witness evaluated by vm_compute; replayed on the C code by the harness) *)
+Theorem simplify_idempotent_reduce_filter_refuted :
+  exists t smp o,
+    o_rts o = true /\ o_fs o = true /\ o_kir o = false /\
+    r_edges (simplify_spec t smp o) <> [] /\
+    r_edges (snd (second_pass t smp o)) = [] /\
+    spec_idempotent_on t smp o = false.
+Proof. exact simplify_idempotent_reduce_filter_refuted_lemma. Qed.
+
+(* keep_input_roots + reduce_to_site_topology + filter_nodes leaves an unreferenced
+   non-sample node in the output (and is therefore not idempotent either) *)
+Theorem simplify_isolated_root_refuted :
+  exists t smp o,
+    o_kir o = true /\ o_rts o = true /\ o_fn o = true /\ o_fs o = false /\
+    unreferenced_nodes (simplify_spec t smp o) smp <> [] /\
+    spec_idempotent_on t smp o = false.
+Proof. exact simplify_isolated_root_refuted_lemma. Qed.
